@@ -77,6 +77,25 @@ func onceBody(c *Checker, rule string, fn *ssa.Function) *ssa.Function {
 	c.decide(nDo == 1 && body != nil && okOuter, rule, name+"|once", fn.Pos(),
 		"the only effectful statement is closeOnce.Do(closure)",
 		fmt.Sprintf("Close is not a single sync.Once.Do(closure): Do calls=%d, other effect outside the once body: %s", nDo, offender))
+	// a thin once body that only delegates to one helper of the same package (`returnErr = c.shutdown()`):
+	// the helper is the effective body
+	if body != nil {
+		var only *ssa.Function
+		n := 0
+		allInstrs(body, func(in ssa.Instruction) {
+			ci, ok := in.(ssa.CallInstruction)
+			if !ok || isLoggerCall(ci) {
+				return
+			}
+			n++
+			if sc := ci.Common().StaticCallee(); sc != nil && sc.Pkg == fn.Pkg && len(sc.Blocks) > 0 {
+				only = sc
+			}
+		})
+		if n == 1 && only != nil && len(body.Blocks) == 1 {
+			return only
+		}
+	}
 	return body
 }
 
